@@ -7,6 +7,7 @@ import (
 	"fmt"
 	"hash/fnv"
 	"sort"
+	"strconv"
 	"strings"
 	"time"
 
@@ -59,6 +60,7 @@ type Violation struct {
 	Script  []ScriptRec       `json:"script"`
 	Chooses []int             `json:"chooses"`          // every engine-level choice on the path (harness + stub internal)
 	Pinned  map[string]uint64 `json:"pinned,omitempty"` // every solver variable of the path (incl. stub/UF outputs)
+	PinnedF map[string]float64 `json:"pinned_f,omitempty"` // real-valued variables (int/real mode), nearest float64
 	Inputs  map[string]string `json:"inputs"`           // compact, human readable
 	Events  []string          `json:"events,omitempty"`
 	Known   string            `json:"known,omitempty"`
@@ -163,6 +165,7 @@ type Explorer struct {
 // Pin fixes every nondet value (interpreter replay of a counterexample).
 type Pin struct {
 	Values  map[string]uint64
+	FValues map[string]float64
 	Chooses []int
 	cpos    int
 }
@@ -274,7 +277,13 @@ func (e *Explorer) decide(c *Term) bool {
 		return false
 	}
 	if e.Pin != nil {
-		panic(abortPath{"pinned replay reached a symbolic branch"})
+		var sb strings.Builder
+		NewPrinter().Ref(c, &sb)
+		d := sb.String()
+		if len(d) > 600 {
+			d = d[len(d)-600:]
+		}
+		panic(abortPath{"pinned replay reached a symbolic branch: " + d})
 	}
 	e.Decisions++
 	if e.pos < len(e.prefix) {
@@ -369,6 +378,8 @@ func (e *Explorer) pinOr(t *Term) *Term {
 		return BoolConst(v != 0)
 	case 'V':
 		return BVConst(v, t.Sort.Width)
+	case 'I':
+		return IConst(int64(v))
 	}
 	return t
 }
@@ -540,7 +551,21 @@ func (e *Explorer) assert(label string, c value) {
 				st.Violated++
 				e.pathViolated = true
 				if st.Violated <= e.MaxViolPerLabel {
-					e.Violations = append(e.Violations, Violation{Harness: e.harness, Label: label, Script: nil, Chooses: append([]int{}, e.chooseLog...), Inputs: map[string]string{"model": e.Solver2.LastModel}})
+					iv, fv := parseArithModel(e.Solver2.LastModel)
+					inputs := map[string]string{}
+					for _, in := range e.InputLog {
+						for _, n := range in.Vars {
+							if v, ok := iv[n]; ok {
+								inputs[in.L] = fmt.Sprint(int64(v))
+							} else if f, ok := fv[n]; ok {
+								inputs[in.L] = fmt.Sprint(f)
+							}
+						}
+						if in.K == "choose" {
+							inputs[in.L] = fmt.Sprint(in.V)
+						}
+					}
+					e.Violations = append(e.Violations, Violation{Harness: e.harness, Label: label, Script: nil, Chooses: append([]int{}, e.chooseLog...), Pinned: iv, PinnedF: fv, Inputs: inputs})
 				}
 			default:
 				st.Undecided++
@@ -779,4 +804,113 @@ func firstWord(s string) string {
 		return s[:i]
 	}
 	return s
+}
+
+// parseArithModel reads a (get-value ...) answer of the int/real mode: ints and rationals.
+func parseArithModel(m string) (map[string]uint64, map[string]float64) {
+	iv, fv := map[string]uint64{}, map[string]float64{}
+	toks := tokenizeSexp(m)
+	pos := 0
+	var parse func() any
+	parse = func() any {
+		if pos >= len(toks) {
+			return nil
+		}
+		t := toks[pos]
+		pos++
+		if t != "(" {
+			return t
+		}
+		var list []any
+		for pos < len(toks) && toks[pos] != ")" {
+			list = append(list, parse())
+		}
+		pos++
+		return list
+	}
+	var eval func(x any) (float64, bool, bool) // value, isReal, ok
+	eval = func(x any) (float64, bool, bool) {
+		switch v := x.(type) {
+		case string:
+			f, err := strconv.ParseFloat(v, 64)
+			return f, strings.Contains(v, "."), err == nil
+		case []any:
+			if len(v) == 2 && v[0] == "-" {
+				f, r, ok := eval(v[1])
+				return -f, r, ok
+			}
+			if len(v) == 3 && v[0] == "/" {
+				a, _, ok1 := eval(v[1])
+				b, _, ok2 := eval(v[2])
+				if ok1 && ok2 && b != 0 {
+					return a / b, true, true
+				}
+			}
+			if len(v) == 3 && v[0] == "-" {
+				a, r1, ok1 := eval(v[1])
+				b, r2, ok2 := eval(v[2])
+				return a - b, r1 || r2, ok1 && ok2
+			}
+		}
+		return 0, false, false
+	}
+	top, _ := parse().([]any)
+	for _, e := range top {
+		pair, ok := e.([]any)
+		if !ok || len(pair) != 2 {
+			continue
+		}
+		name, ok := pair[0].(string)
+		if !ok {
+			continue
+		}
+		if f, isReal, ok := eval(pair[1]); ok {
+			if isReal {
+				fv[name] = f
+			} else {
+				iv[name] = uint64(int64(f))
+				if s, isStr := pair[1].(string); isStr {
+					if n, err := strconv.ParseInt(s, 10, 64); err == nil {
+						iv[name] = uint64(n)
+					}
+				} else if l, isL := pair[1].([]any); isL && len(l) == 2 && l[0] == "-" {
+					if s, isStr := l[1].(string); isStr {
+						if n, err := strconv.ParseInt(s, 10, 64); err == nil {
+							iv[name] = uint64(-n)
+						}
+					}
+				}
+			}
+		}
+	}
+	return iv, fv
+}
+
+func tokenizeSexp(s string) []string {
+	var out []string
+	for i := 0; i < len(s); {
+		c := s[i]
+		switch {
+		case c == '(' || c == ')':
+			out = append(out, string(c))
+			i++
+		case c == ' ' || c == '\n' || c == '\t' || c == '\r':
+			i++
+		case c == '|':
+			j := strings.IndexByte(s[i+1:], '|')
+			if j < 0 {
+				return out
+			}
+			out = append(out, s[i:i+j+2])
+			i += j + 2
+		default:
+			j := i
+			for j < len(s) && !strings.ContainsRune("() \n\t\r", rune(s[j])) {
+				j++
+			}
+			out = append(out, s[i:j])
+			i = j
+		}
+	}
+	return out
 }
